@@ -9,16 +9,25 @@ def render(cases):
     for n, c in enumerate(cases):
         sh, ex = c["shape"], c["exp"]
         recv, nreq = sh["recv"], sh["nreq"]
+        gen_ = sh.get("generic", "none")
+        tgen = "<K: 'static>" if gen_ == "trait" else ""          # generic trait
+        mgen = "<X: 'static>" if gen_ == "method" else ""         # generic provided method
+        xpar = ", _x: X" if gen_ == "method" else ""
+        xarg = ", NoDbg(0)" if gen_ == "method" else ""
+        xpat = ", _" if gen_ == "method" else ""
+        wt_t = ".with_types::<u64>()" if gen_ == "trait" else ""   # every MockFn of a generic trait is generic
+        wt_m = ".with_types::<NoDbg>()" if gen_ == "method" else wt_t
+        tq = "Tr%d::<u64>::" % n if gen_ == "trait" else None      # calls on a generic trait name the instantiation
         calls = ["self.req%d(a + %d)" % (n, i) for i in range(nreq)]
         if sh.get("consume"):
             calls[-1] = "self.reqp%d(a + %d)" % (n, nreq - 1)       # required method taking the pointer by value: last use of self
         body = " + ".join(["1000u32"] + calls)
         L.append("#[unimock(api=M%d)]" % n)
-        L.append("trait Tr%d {" % n)
+        L.append("trait Tr%d%s {" % (n, tgen))
         L.append("    fn req%d(&self, x: u8) -> u32;" % n)
         if sh.get("consume"):
             L.append("    fn reqp%d(%s, x: u8) -> u32;" % (n, RECV[recv]))
-        L.append("    fn dflt%d(%s, a: u8, b: &str) -> u32%s { rec_a(vec![sh(&a), sh(&b)]); %s }" % (n, RECV[recv], " where Self: Sized" if recv == "own" else "", body))
+        L.append("    fn dflt%d%s(%s, a: u8, b: &str%s) -> u32%s { rec_a(vec![sh(&a), sh(&b)]); %s }" % (n, mgen, RECV[recv], xpar, " where Self: Sized" if recv == "own" else "", body))
         L.append("}")
         reqs = ex["reqcalls"]
         clauses = []
@@ -27,12 +36,12 @@ def render(cases):
             reqs = reqs[:-1]
             clauses.append("M%d::reqp%d.each_call(matching!(_)).answers(&|_, x| x as u32 * 10).n_times(1)" % (n, n))
         if sh["explicit"]:
-            clauses.append("M%d::dflt%d.each_call(matching!(5, \"s\")).applies_default_impl().once()" % (n, n))
+            clauses.append("M%d::dflt%d%s.each_call(matching!(5, \"s\"%s)).applies_default_impl().once()" % (n, n, wt_m, xpat))
         if reqs:
             if sh["ordered"]:
-                clauses += ["M%d::req%d.next_call(matching!(%d)).returns(%du32)" % (n, n, x, 10 * x) for x in reqs]
+                clauses += ["M%d::req%d%s.next_call(matching!(%d)).returns(%du32)" % (n, n, wt_t, x, 10 * x) for x in reqs]
             else:
-                clauses.append("M%d::req%d.each_call(matching!(_)).answers(&|_, x| x as u32 * 10).n_times(%d)" % (n, n, len(reqs)))
+                clauses.append("M%d::req%d%s.each_call(matching!(_)).answers(&|_, x| x as u32 * 10).n_times(%d)" % (n, n, wt_t, len(reqs)))
         setup = "()" if not clauses else clauses[0] if len(clauses) == 1 else "(" + ", ".join(clauses) + ",)"
         cid = "d%d" % n
         mutu = "mut " if recv in ("mut", "pin") else ""
@@ -42,17 +51,32 @@ def render(cases):
         L.append("    let mut direct: Vec<String> = vec![];")
         for _ in range(sh["direct"]):
             L.append("    direct.push(res_json(&observe(|| u.req%d(1), |r| r.to_string())));" % n)
-        if recv in ("ref", "mut", "own"):
-            L.append("    let r = observe(|| u.dflt%d(5, \"s\"), |r| r.to_string());" % n)
+        def call(target):
+            """the provided method called on `target` (an expression of the receiver's type)"""
+            if tq:
+                return "%sdflt%d(%s, 5, \"s\"%s)" % (tq, n, target, xarg)
+            return "%s.dflt%d(5, \"s\"%s)" % (target if not target.startswith("&") else "(%s)" % target, n, xarg)
+        if recv == "ref":
+            L.append("    let r = observe(|| %s, |r| r.to_string());" % call("&u" if tq else "u"))
+        elif recv == "mut":
+            L.append("    let r = observe(|| %s, |r| r.to_string());" % call("&mut u" if tq else "u"))
+        elif recv == "own":
+            L.append("    let r = observe(|| %s, |r| r.to_string());" % call("u"))
         elif recv == "pin":
-            L.append("    let r = observe(|| std::pin::Pin::new(&mut u).dflt%d(5, \"s\"), |r| r.to_string());" % n)
+            L.append("    let r = observe(|| %s, |r| r.to_string());" % call("std::pin::Pin::new(&mut u)"))
         else:
             ctor = "std::rc::Rc::new" if recv == "rc" else "std::sync::Arc::new"
+            down = "std::rc::Rc::downgrade" if recv == "rc" else "std::sync::Arc::downgrade"
             if sh["shared"]:
                 L.append("    let keep = %s(u);" % ctor)
-                L.append("    let r = observe(|| keep.clone().dflt%d(5, \"s\"), |r| r.to_string());" % n)
+                L.append("    let r = observe(|| %s, |r| r.to_string());" % call("keep.clone()"))
+            elif sh.get("weak"):
+                L.append("    let strong = %s(u);" % ctor)
+                L.append("    let observer = %s(&strong);" % down)
+                L.append("    let r = observe(|| %s, |r| r.to_string());" % call("strong"))
+                L.append("    drop(observer);")
             else:
-                L.append("    let r = observe(|| %s(u).dflt%d(5, \"s\"), |r| r.to_string());" % (ctor, n))
+                L.append("    let r = observe(|| %s, |r| r.to_string());" % call("%s(u)" % ctor))
         L.append("    let a = take_a();")
         if recv in ("ref", "mut", "pin"):
             L.append("    let fin = observe(move || u.verify(), |_| \"silent\".to_string());")
@@ -63,7 +87,7 @@ def render(cases):
         L.append("    emit(\"%s\", vec![(\"r\", res_json(&r)), (\"a\", jlog(&a)), (\"direct\", format!(\"[{}]\", direct.join(\",\"))), (\"fin\", res_json(&fin))]);" % cid)
         L.append("}")
         fns.append(cid)
-        exp[cid] = {"shape": sh, "sig": "fn dflt(%s, a: u8, b: &str) -> u32 { %s }" % (RECV[recv], body), "setup": setup,
+        exp[cid] = {"shape": sh, "sig": "%sfn dflt%s(%s, a: u8, b: &str%s) -> u32 { %s }" % ("trait Tr<K> :: " if tgen else "", mgen, RECV[recv], xpar, body), "setup": setup,
                     "ret": str(ex["ret"]), "body": [ex["body"]], "direct": [{"ok": "10"}] * sh["direct"]}
     L.append("fn main() {")
     L.append("    std::panic::set_hook(Box::new(|_| {}));")
@@ -82,7 +106,7 @@ def compare(exp, obs_lines):
             divs.append({"case": cid, "what": "case produced no observation", "expected": None, "observed": None, "exp": e})
             continue
         sh = e["shape"]
-        desc = "%s; %s%s; mock built from %s" % (e["sig"], "sole owner" if not sh["shared"] else "shared owner", ", explicit applies_default_impl()" if sh["explicit"] else "", e["setup"])
+        desc = "%s; %s%s; mock built from %s" % (e["sig"], ("sole owner" if not sh["shared"] else "shared owner") + (" with a Weak observer" if sh.get("weak") else ""), ", explicit applies_default_impl()" if sh["explicit"] else "", e["setup"])
         want = {"r": {"ok": e["ret"]}, "a": e["body"], "direct": e["direct"], "fin": {"ok": "silent"}}
         got = {k: o.get(k) for k in want}
         if got != want:
